@@ -290,6 +290,19 @@ Fixpoint coord (k : nat) (e : sx) (zs : seq (seq F)) (b a t : nat) : F :=
                 else coord k r (drop (ncalls l) zs) b (a - nd l) t
   end.
 
+(* the same selection as an address: (index of the randn call, flat offset in its tensor) *)
+Fixpoint coord_idx (k : nat) (e : sx) (b a t : nat) : nat * nat :=
+  match e with
+  | SDiag bs n _ | SIdent bs n => (0, (t * prodn bs + b) * n + a)
+  | SGen bs n A rk => (0, (b * nd e + a) * k + t)
+  | SBlockDiag _ nb c | SBlockInter _ nb c | SSumBatch _ nb c =>
+      coord_idx k c (b * nb + a %/ nd c) (a %% nd c) t
+  | SInterp _ _ _ _ _ _ _ c => coord_idx k c b a t
+  | SZero _ _ => (0, 0)
+  | SAdd l r => if a < nd l then coord_idx k l b a t
+                else let p := coord_idx k r b (a - nd l) t in (ncalls l + p.1, p.2)
+  end.
+
 Fixpoint den (e : sx) (b i j : nat) : F :=
   match e with
   | SDiag bs n d => if i == j then rd d (b * n + i) else a0 ar
